@@ -272,7 +272,14 @@ def _make_jobs(rng, n, navinfo):
                                                                        "display": ["public", "private", "protected"]}))
     while len(jobs) < n:
         jobs.append(P.gen_spec(rng))
-    return [{"spec": sp, "rseed": rng.randrange(1 << 30), "nav": navinfo} for sp in jobs[:max(n, len(P.SHAPES) * 2)]]
+    out = []
+    for k, sp in enumerate(jobs[:max(n, len(P.SHAPES) * 2)]):
+        # a share of the runs reaches the output directory / the project directory / the sources through a
+        # symbolic link, and a third of the sites is moved elsewhere (original deleted) and walked again
+        layout = "out-symlink" if k % 5 == 1 else "proj-symlink" if k % 7 == 2 else "src-symlink" if k % 11 == 3 else "plain"
+        out.append({"spec": sp, "rseed": rng.randrange(1 << 30), "nav": navinfo, "layout": layout,
+                    "relocate": k % 3 == 0})
+    return out
 
 
 def counts_term(fields, vals):
@@ -300,12 +307,14 @@ def end_to_end(chk, rng, n, x):
             return
     nav_cases, nav_meta = [], []
     tot = {"pages": 0, "links": 0, "internal": 0, "fragments": 0, "svg": 0, "graph_table": 0, "search_urls": 0,
-           "external": 0}
+           "external": 0, "relocated": 0, "relocated_links": 0}
+    layouts = {}
     known_hits, shapes, optcombos, errors = {}, set(), set(), 0
     for job, res in zip(jobs, results):
         spec = job["spec"]
         o = spec["options"]
         shapes.add(spec["name"])
+        layouts[job.get("layout", "plain")] = layouts.get(job.get("layout", "plain"), 0) + 1
         combo = (o["incl_src"], o["search"], o["graph"], o["proc_internals"], tuple(o["display"]), o["sort"],
                  bool(spec["pages"]), o.get("graph_maxnodes"), o.get("graph_maxdepth"))
         optcombos.add(combo)
@@ -335,7 +344,7 @@ def end_to_end(chk, rng, n, x):
                              f"{bools(nv['exist'])}")
             nav_meta.append((job, nv))
     chk.extra["walker"] = dict(tot, projects=len(jobs), failed_runs=errors, shapes=len(shapes),
-                               option_combinations=len(optcombos), known_finding_hits=known_hits)
+                               option_combinations=len(optcombos), known_finding_hits=known_hits, layouts=layouts)
     res = chk.coq_judge(IMPORTS, "case", "judge", nav_cases)
     if res is not None:
         chk.traces += len(nav_cases)
@@ -353,7 +362,8 @@ def end_to_end(chk, rng, n, x):
 
 
 def _job_json(job):
-    return {"spec": job["spec"], "rseed": job["rseed"]}
+    return {"spec": job["spec"], "rseed": job["rseed"], "layout": job.get("layout", "plain"),
+            "relocate": job.get("relocate", False)}
 
 
 # ----------------------------------------------------------------------------- protocol
